@@ -229,7 +229,9 @@ def _loader_common(draw, tier):
 
 
 def _uid(i):
-    return "u%04d" % i  # zero-padded: the data sets list utterances in string order
+    # zero-padded: the data sets list utterances in string order; the tails are characters of the ".pt" suffix
+    # (discovery strips exactly one suffix, nothing more)
+    return "u%04d" % i + ("", "t", "p", ".", "pt")[i % 5]
 
 
 def _feat_list(i, T, F):
